@@ -137,6 +137,15 @@ def _distribute_try(computation_graph: ComputationGraph,
             var_hosted[n.name] = selected
             var_hosted[hostwith[0]] = selected
             agents_capa[selected] -= computation_memory(n)
+            agents_capa[selected] -= computation_memory(
+                computation_graph.computation(hostwith[0]))
+
+    # The computations placed according to the hints must fit on their agents
+    for a, remaining_capacity in agents_capa.items():
+        if remaining_capacity < 0:
+            raise ImpossibleDistributionException(
+                'Distribution hints exceed the capacity of agent {}'
+                .format(a))
 
     for n in nodes:
         if n.name in var_hosted:
